@@ -204,17 +204,44 @@ Proof.
   intros H. unfold min_split_dims. destruct (length s - 1) as [|n] eqn:E; [lia|]. cbn [seq map]. eauto.
 Qed.
 
+(* the single-mode branch: factor_matrices[0] @ weights *)
+Lemma ktensor_full_1way_correct (K : ktensor V) A : kfactors K = [A] -> rows_ok (krank K) (kfactors K) ->
+  wf_dense (ktensor_full_1way v0 vadd vmul K A) /\ dshape (ktensor_full_1way v0 vadd vmul K A) = kshape K /\
+  forall i, den_dense v0 (ktensor_full_1way v0 vadd vmul K A) i = den_k v0 v1 vadd vmul K i.
+Proof.
+  intros HA Hok. rewrite HA in Hok. inversion Hok as [|? ? HAr _]; subst.
+  assert (Hs : kshape K = [length A]) by (unfold kshape; rewrite HA; reflexivity).
+  split; [|split; [reflexivity|]].
+  - unfold wf_dense, ktensor_full_1way. cbn [ddata dshape]. rewrite map_length, Hs, size_cons. change (size []) with 1. lia.
+  - intros i. unfold den_k, den_dense, ktensor_full_1way. cbn [dshape ddata]. rewrite Hs.
+    destruct (inb [length A] i) eqn:Hi; [|reflexivity].
+    destruct i as [|x [|y i]]; cbn [inb] in Hi; try discriminate; try (rewrite andb_false_r in Hi; discriminate).
+    rewrite andb_true_r in Hi. apply Nat.ltb_lt in Hi.
+    cbn [sub2ind]. rewrite Nat.mul_0_r, Nat.add_0_r.
+    rewrite (nth_indep _ v0 ((fun row => dotv v0 vadd vmul row (kweights K)) [])) by (now rewrite map_length).
+    rewrite (map_nth (fun row => dotv v0 vadd vmul row (kweights K))).
+    assert (HL : length (nth x A []) = krank K). { rewrite Forall_forall in HAr. apply HAr. now apply nth_In. }
+    rewrite (dotv_as_sum _ _ (krank K)) by (auto; reflexivity).
+    apply sum_n_ext. intros r Hr. rewrite HA. cbn [kprod]. unfold mget. ring.
+Qed.
+
 Theorem ktensor_full_correct (K : ktensor V) :
-  rows_ok (krank K) (kfactors K) -> 2 <= length (kfactors K) ->
+  rows_ok (krank K) (kfactors K) -> 1 <= length (kfactors K) ->
   exists D, ktensor_full_impl v0 vadd vmul K = Some D /\ wf_dense D /\ dshape D = kshape K /\
     (forall i, den_dense v0 D i = den_k v0 v1 vadd vmul K i) /\
     D = ktensor_full_spec v0 v1 vadd vmul K.
 Proof.
-  intros Hok HN. unfold ktensor_full_impl.
-  assert (HL : length (kshape K) = length (kfactors K)) by (unfold kshape; apply map_length).
-  assert (H2 : 2 <= length (kshape K)) by lia. destruct (min_split_dims_some _ H2) as [isp E]. rewrite E.
-  apply min_split_dims_range in E. rewrite HL in E.
-  destruct (ktensor_full_at_correct K isp Hok E) as (D & E1 & W & Hs & Hd). exists D. repeat (split; auto).
+  intros Hok HN.
+  assert (G : exists D, ktensor_full_impl v0 vadd vmul K = Some D /\ wf_dense D /\ dshape D = kshape K /\
+            (forall i, den_dense v0 D i = den_k v0 v1 vadd vmul K i)).
+  { unfold ktensor_full_impl. destruct (kfactors K) as [|A [|B rest]] eqn:EA; [cbn in HN; lia| |].
+    - rewrite <- EA in Hok. destruct (ktensor_full_1way_correct K A EA Hok) as (W & Hs & Hd). eexists; split; [reflexivity|]. auto.
+    - rewrite <- EA in Hok. assert (HL : length (kshape K) = length (kfactors K)) by (unfold kshape; apply map_length).
+      assert (H2 : 2 <= length (kshape K)) by (rewrite HL, EA; cbn; lia).
+      destruct (min_split_dims_some _ H2) as [isp E]. rewrite E.
+      apply min_split_dims_range in E. rewrite HL in E.
+      destruct (ktensor_full_at_correct K isp Hok E) as (D & E1 & W & Hs & Hd). exists D. auto. }
+  destruct G as (D & E1 & W & Hs & Hd). exists D. repeat (split; auto).
   apply (dense_ext v0); [exact W|apply wf_tabulate|exact Hs|]. intros i Hi. rewrite Hd. unfold ktensor_full_spec.
   rewrite Hs in Hi. now rewrite den_tabulate.
 Qed.
